@@ -38,7 +38,7 @@ const USES: [(&str, &str); 24] = [
     ("NAME.floor(\"x\")\n", "bad-argument"),
     ("NAME(1, nil)\n", "call-nil-arg"),
     ("print(NAME(2))\n", "nested-argument"),
-    ("local _, NAME.pi = 1, 2\nNAME.huge, _ = 1, 2\n", "multiple-assign"),
+    ("y0, NAME.pi = 1, 2\nNAME.huge, y1 = 1, 2\ny2, y3, NAME.x = 1, 2, 3\n", "multiple-assign"),
     ("show { NAME.floor }\n", "table-call-argument"),
     ("show { k = NAME.getn, [NAME.pi] = NAME.floor(1.5) }\n", "table-call-argument-keys"),
     ("local _ = { NAME.floor, NAME.getn({}) }\n", "table-constructor"),
@@ -90,7 +90,7 @@ pub fn generate(seed: u64, n: usize, thorough: bool) -> Cases {
         let ds = catch_unwind(AssertUnwindSafe(|| ck.test_on(&ast))).ok()?;
         Some((ast, ds))
     };
-    // the whole matrix is 12 x 9 x 14 x 2 = 3024 programs; quick samples it, thorough enumerates it
+    // the whole matrix is 12 x 9 x 24 x 2 = 5184 programs; quick samples it, thorough enumerates it
     let mut combos: Vec<(usize, usize, usize)> = Vec::new();
     for r in 0..ROOTS.len() {
         for b in 0..BINDINGS.len() {
